@@ -336,9 +336,10 @@ CHECKS["C15"] = dict(
     coverage=_cov("corpus: crypt_rn, crypt_r, crypt (static), crypt_ra from (NULL,0)/100-byte block/adequate block, for all 16 methods, plus "
                   "yescrypt/gost-yescrypt/scrypt at 32 MiB (MAP_HUGETLB attempt and fallback), crypt_gensalt_ra, crypt_gensalt_rn and "
                   "crypt_gensalt with rbytes==NULL for 16 prefixes; each call is run once to count its malloc/realloc/free/mmap/munmap "
-                  "requests, then once per failing position and once per ordered pair of positions, each followed by the same call without "
+                  "requests, then once per failing position and once per ordered pair of positions (thorough: also every ordered triple, and a second "
+                  "setting form per method), each followed by the same call without "
                   "faults on the same objects; distinct_nontrivial = calls of the corpus that issue at least one request (distinct request logs)",
-                  lambda s, t: dict(single_faults=int(s.get("single_faults", 0)), fault_pairs=int(s.get("fault_pairs", 0)),
+                  lambda s, t: dict(single_faults=int(s.get("single_faults", 0)), fault_pairs=int(s.get("fault_pairs", 0)), fault_triples=int(s.get("fault_triples", 0)),
                                     follow_up_calls=int(s.get("follow_up_calls", 0)), max_requests_per_call=int(s.get("max_requests_per_call", 0)))),
     assumptions=["a fault absorbed by a documented fallback (huge-page attempt) may still yield the correct hash; any other hash is a violation",
                  "a mapping whose own munmap was failed by the injector is allowed to survive"],
